@@ -1002,3 +1002,5 @@ def check(src, rep, tier):
     rep.need('C02.R9', 2)
     rep.guard('C02.R9', r9_paragraphs_share_no_container, src)
     rep.guard('C02.R9', common.check_class_level_mutables, src, 'C02.R9', 'deb822', 'the result of reading one document then depends on which documents were read before it in the same process (the input form of an EARLIER object decides how a later one is decoded)')
+    from . import common as _common_flags
+    rep.guard('C02.R3', _common_flags.check_re_positional_flags, src, 'C02.R3', 'deb822', 'a text with more separators than that is cut short')
